@@ -1,7 +1,8 @@
 --------------------------- MODULE Mol2TextTrace ---------------------------
 (* Trace validation for C07 (batched, DESIGN 2.2).                             *)
 (*                                                                             *)
-(* Structure traces: build / write / read / write2 / read2 events recorded     *)
+(* Structure traces: build / write / read / write2 / read2 [/ edit / write /   *)
+(* read ...] events recorded                                                   *)
 (* from real dumps_mol2 / loads_mol2 / loads_all_mol2 calls.  Each event is    *)
 (* the corresponding Do* step of Mol2Text with the OBSERVED outcome, and the   *)
 (* step is a step of the specification only if the contract of Mol2Text holds  *)
@@ -36,6 +37,7 @@ TWrite  == Ev.ev = "write"  /\ DoWrite(Ev.res)
 TRead   == Ev.ev = "read"   /\ DoRead(Ev.res)
 TWrite2 == Ev.ev = "write2" /\ DoWrite2(Ev.res)
 TRead2  == Ev.ev = "read2"  /\ DoRead2(Ev.res)
+TEdit   == Ev.ev = "edit"   /\ DoEdit(Ev.obj)       \* the same real object, edited, as seen through its accessors
 TAtype  == /\ Ev.ev = "atype"
            /\ On("AtomTyping", AtomTypingContract(Ev.el, Ev.tok, Ev.res, Ev.tok2))
            /\ IF Ev.tok = EmitAtom([el |-> Ev.el, at |-> Ev.at, g |-> Ev.g]) THEN TRUE
@@ -48,11 +50,11 @@ TBtype  == /\ Ev.ev = "btype"
            /\ UNCHANGED vars
 
 Step == /\ ti <= NT /\ l <= Len(Tr)
-        /\ (TBuild \/ TWrite \/ TRead \/ TWrite2 \/ TRead2 \/ TAtype \/ TBtype)
+        /\ (TBuild \/ TWrite \/ TRead \/ TWrite2 \/ TRead2 \/ TEdit \/ TAtype \/ TBtype)
         /\ Selected'                                  \* every clause holds after the observed step
         /\ l' = l + 1 /\ ti' = ti
 
-Reset == /\ rec' = NoRec /\ phase' = 0 /\ obj' = NoObj /\ text' = Nothing /\ back' = Nothing
+Reset == /\ edits' = 0 /\ pend' = NoPend /\ rec' = NoRec /\ phase' = 0 /\ obj' = NoObj /\ text' = Nothing /\ back' = Nothing
          /\ text2' = Nothing /\ back2' = Nothing /\ last' = [act |-> "init"]
 NextTrace == ti' = ti + 1 /\ l' = 1 /\ Reset
 Finish == /\ ti <= NT /\ l = Len(Tr) + 1
